@@ -34,7 +34,7 @@ package algo
 // from make() is zeroed and initialised.
 //@ func alloc16
 //@ property C02 C05
-//@ requires 0 <= offset && 0 <= size && size <= 4294967296 && offset <= 4294967296
+//@ requires 0 <= offset && 0 <= size && size <= 17592186044416 && offset <= 17592186044416
 //@ modifies init(slab.I16[offset:offset+size])
 //@ ensures len(r1) == size
 //@ ensures slab != nil && cap(slab.I16) > offset + size ==> r0 == offset + size && r1 == old(slab.I16[offset:offset+size])
@@ -42,7 +42,7 @@ package algo
 
 //@ func alloc32
 //@ property C02 C05
-//@ requires 0 <= offset && 0 <= size && size <= 4294967296 && offset <= 4294967296
+//@ requires 0 <= offset && 0 <= size && size <= 17592186044416 && offset <= 17592186044416
 //@ modifies init(slab.I32[offset:offset+size])
 //@ ensures len(r1) == size
 //@ ensures slab != nil && cap(slab.I32) > offset + size ==> r0 == offset + size && r1 == old(slab.I32[offset:offset+size])
@@ -273,3 +273,35 @@ package algo
 //@ property C02
 //@ requires 0 <= a && a <= b && gs(c, p, cs, nz, fwd, a) == len(p)
 //@ ensures gs(c, p, cs, nz, fwd, b) == len(p)
+
+// ---------------------------------------------------------------- FuzzyMatchV2
+//@ lemma mul_mono(a int, b int, c int)
+//@ property C02
+//@ requires 0 <= a && a <= b && 0 <= c
+//@ ensures a * c <= b * c
+
+// debugV2 only prints; it is reachable only with the package variable DEBUG set, which no code in fzf does.
+//@ func debugV2 trusted
+
+//@ func FuzzyMatchV2
+//@ property C02 C05
+//@ requires !DEBUG
+//@ cut @"f0 := int(F[0])" phases 3 and 4 (matrix fill, back-trace)
+//@ track init int16 int32
+//@ requires input != nil && validChars(input) && validRunes(pattern) && len(pattern) <= 1000
+//@ requires slab != nil ==> cap(slab.I16) <= 1000000000 && cap(slab.I32) <= 1000000000 && slab.I16.off == 0 && slab.I32.off == 0
+//@ requires slab != nil ==> !sameArray(pattern, slab.I32) && (input.inBytes || !sameArray(input.slice, slab.I32))
+//@ modifies slab.I16[0:cap(slab.I16)], slab.I32[0:cap(slab.I32)]
+//@ ensures r0.Start < 0 ==> r0.Start == -1 && r0.End == -1 && r1 == nil
+//@ ensures !withPos ==> r1 == nil
+//@ ensures len(pattern) > 0 && r0.Start >= 0 ==> r0.Start < r0.End && r0.End <= clen(input)
+//@ loop 1
+//@   writes H0[*], C0[*], B[*], F[*], T[*]
+//@   invariant N == maxIdx - minIdx && 0 <= minIdx && maxIdx <= clen(input) && 1 <= N && M == len(pattern) && 1 <= M && len(T) == N && len(H0) == N && len(C0) == N && len(B) == N && len(F) == M
+//@   invariant 0 <= pidx && pidx <= M && 0 <= lastIdx && lastIdx <= iter && (pidx > 0 ==> lastIdx < iter)
+//@   invariant forall(k, 0, pidx, 0 <= F[k] && F[k] <= lastIdx) && forall(k, 1, pidx, F[k-1] < F[k]) && init(F, 0, pidx)
+//@   invariant init(H0, 0, iter) && init(C0, 0, iter) && init(B, 0, iter) && init(T, 0, N)
+//@   invariant forall(k, 0, iter, 0 <= H0[k] && H0[k] <= 36 && 0 <= B[k] && B[k] <= 10 && 0 <= C0[k] && C0[k] <= 1)
+//@   invariant 0 <= prevClass && prevClass <= 6 && 0 <= prevH0 && prevH0 <= 36 && 0 <= maxScore && maxScore <= 36 && 0 <= maxScorePos && maxScorePos <= iter && maxScorePos < N
+//@   invariant pchar0 == pattern[0] && pchar == pattern[pidx < M ? pidx : M - 1]
+//@   invariant forall(k, iter, N, 0 <= T[k] && T[k] <= 1114111)
